@@ -8,10 +8,15 @@ MANIFEST = dict(
     category="proof",
     text="Contracts on the real sample conversion helpers opn2_cvtS16/U16/S8/U8/S24/U24/S32/U32/Real<float|double> (extracted from opnmidi_private.hpp): each equals the documented formula for all 2^32 inputs, no signed overflow. Contract on the real SendStereoAudio (extracted): refuses exactly the undocumented type/container pairs, otherwise performs exactly one copy of min(requested - position, 2*available)/2 frames starting at frame position/2 with the requested stride into containers of the requested size; the six CopySamples instantiations are replaced by contracts that check those arguments.",
     design_ref="DESIGN.md C13",
-    level_note="Not covered: the per-byte frame of CopySamplesRaw/Transformed themselves (template loops; not built), the request accounting of opn2_generateFormat/opn2_playFormat's period loop (floating point), end-of-song behaviour. Trusted: extraction rules incl. template monomorphisation (R6), CBMC float semantics for the two Real conversions.",
+    level_note="opn2_generateFormat (extracted, loop contract): if it returns, the result is the request rounded down to even (0 for negative counts, NULL device or a refused format), every SendStereoAudio call satisfies that function's precondition, at most 512 frames go through the 1024-element mix buffer, the carry stays a fraction - PARTIAL correctness, termination not proved. Not covered: the per-byte frame of CopySamplesRaw/Transformed themselves, opn2_playFormat, end-of-song behaviour. Trusted: extraction rules incl. template monomorphisation (R6), CBMC float semantics for the two Real conversions.",
     technique="CBMC code contracts (DFCC) on mechanically extracted inline functions")
 TRUSTED = ["extraction rules of vlib/cxx2c.py (R1, R2, R6 template monomorphisation)", "assumed contracts at the call sites of the CopySamples instantiations (argument check + ghost record); their bodies are not under proof"]
-ASSUMPTIONS = ["SendStereoAudio is called as opn2_generateFormat/opn2_playFormat call it: even non-negative request, even position inside it, at most 512 generated frames"]
+ASSUMPTIONS = ["SendStereoAudio group: called with an even non-negative request, an even position inside it and at most 512 generated frames - no longer assumed: it is the REQUIRES of the SendStereoAudio stub that both callers (generate_format_contract, play_format_contract) are checked against at the call site",
+               "opn2_generateFormat / opn2_playFormat: PARTIAL correctness (termination of the period loop is not proved: progress depends on floating-point accumulation and on the sequencer)",
+               "generate/play groups: 1..4 chips (the property's quantifier); the chip loop is unwound with unwinding assertions for that bound",
+               "generate/play groups: setup invariant assumed at entry (1 <= PCM_RATE <= 1e6, 0 < maxdelay <= 1000 s, carry in [0,1), 0 <= delay <= 1e9 s, |tick_skip_samples_delay| <= 2^32) and re-established at exit",
+               "play group: ASSUMED contracts of the sequencer - positionAtEnd() returns any answer, OPNMIDIplay::Tick() returns a finite delay in [0, 1e9] s",
+               "generate/play groups: TRUSTED memset model (checks the cleared range is inside m_outBuf, then forgets the buffer contents); chip emulators by contract (write at most 512 frames into m_outBuf)"]
 P = "src/opnmidi_private.hpp"
 CVT = ["opn2_cvtS16", "opn2_cvtS8", "opn2_cvtS24", "opn2_cvtS32", "opn2_cvtU16", "opn2_cvtU8", "opn2_cvtU24", "opn2_cvtU32"]
 INST = [("CopySamplesTransformed", "int8_t"), ("CopySamplesTransformed", "int16_t"), ("CopySamplesTransformed", "int32_t"),
@@ -51,6 +56,23 @@ def _extract(send):
     return f
 
 
+GEN = dict(file="src/opnmidi.cpp", name="opn2_generateFormat", cls=None, must=["R2", "R3"], scopes=["MidiPlayer"],
+           post=[(r"synth\.m_chips\[0\]->generate32\(", "chip_generate32(0, "), (r"synth\.m_chips\[card\]->generateAndMix32\(", "chip_generateAndMix32(card, "),
+                 (r"SendStereoAudio\(", "SendStereoAudio_c("), (r"player->TickIterators\(", "TickIterators(")])
+
+
+PLAY = dict(file="src/opnmidi.cpp", name="opn2_playFormat", cls=None, must=["R2", "R3"], scopes=["MidiPlayer"],
+            post=GEN["post"][:3], post_opt=[(r"player->m_sequencer->positionAtEnd\(\)", "seq_positionAtEnd()"), (r"player->Tick\(", "player_Tick(")])
+
+
+def _extract_gen(wd):
+    return extract_play.emit(wd, [GEN])
+
+
+def _extract_play(wd):
+    return extract_play.emit(wd, [PLAY])
+
+
 def groups(tier):
     gs = []
     for n in CVT + ["opn2_cvtReal_float", "opn2_cvtReal_double"]:
@@ -61,4 +83,14 @@ def groups(tier):
                     replace=["%s_%s" % i for i in INST], required=[r"SEND"], funcs=["SendStereoAudio"], object_bits=9,
                     checks=["--bounds-check", "--pointer-check", "--div-by-zero-check", "--signed-overflow-check", "--undefined-shift-check", "--no-malloc-may-fail", "--conversion-check"],
                     note="lemma harness over the real body with the CopySamples instantiations replaced by argument-checking contracts"))
+    gs.append(Group("generate_format_contract", "harness/audio_h.c", "h_opn2_generateFormat", defines=["WITH_GENERATE"], extract=_extract_gen, enforce="opn2_generateFormat",
+                    replace=["chip_generate32", "chip_generateAndMix32", "SendStereoAudio_c", "TickIterators"], loops=True, object_bits=9,
+                    pre_unwindset="opn2_generateFormat.0:6", flags=["--conversion-check", "--float-overflow-check", "--nan-check"],
+                    required=[r"postcondition", r"loop_invariant_step", r"precondition"], timeout=900, funcs=["opn2_generateFormat"],
+                    note="loop contract on the period loop: PARTIAL correctness (no variant: progress depends on floating-point accumulation); chips, SendStereoAudio and TickIterators by contract"))
+    gs.append(Group("play_format_contract", "harness/audio_h.c", "h_opn2_playFormat", defines=["WITH_PLAY"], extract=_extract_play, enforce="opn2_playFormat",
+                    replace=["chip_generate32", "chip_generateAndMix32", "SendStereoAudio_c", "seq_positionAtEnd", "player_Tick"], loops=True, object_bits=9,
+                    pre_unwindset="opn2_playFormat.0:6", flags=["--conversion-check", "--float-overflow-check", "--nan-check"],
+                    required=[r"postcondition", r"loop_invariant_step", r"precondition"], timeout=900, funcs=["opn2_playFormat"],
+                    note="loop contract on the period loop: PARTIAL correctness; chips, SendStereoAudio, the sequencer's positionAtEnd and Tick by contract"))
     return gs
